@@ -363,7 +363,7 @@ def _exec_probe(net, op, i, ctx, h):
         # same start on both sides -> same iterates (1e-6); different start -> equal within what the
         # solver's stopping rule guarantees (NR: 1e-8 MVA mismatch; sweep/decoupled methods are looser)
         tol = 1e-6 if not init_results else \
-            (1e-4 if kw.get("algorithm") in ("bfsw", "fdbx", "fdxb", "gs") else 1e-5)
+            (1e-4 if kw.get("algorithm") in ("bfsw", "fdbx", "fdxb", "gs") else 5e-5)
         diffs = oracles.compare_results(net, ref, tables=tabs, rtol=tol, atol=tol)
         if kind in ("runpp", "rundcpp", "runopp", "rundcopp"):
             if bool(net["converged"] if kind in ("runpp", "rundcpp") else net["OPF_converged"]) != \
